@@ -3,6 +3,8 @@ import Proofs.Lemmas.CtlMono
 import Proofs.Lemmas.CtlExit
 import Proofs.Lemmas.CtlIso
 import Proofs.Lemmas.CtlWitness
+import Proofs.Lemmas.CtlShape
+import Generated.C02Shapes
 /-!
 # C02 — control flow and function calls behave as the reference semantics prescribe
 
@@ -223,5 +225,287 @@ example :
         { fr := { slots := [.int 4], bound := [], fn := none }, statics := [], out := [] } =
       evalM [] 3 (.assignVar 0 (compE [0] (.bin .mul (.var 0) (.lit (.int 3)))))
         { fr := { slots := [.int 4], bound := [], fn := none }, statics := [], out := [] } := rfl
+
+/-! ## the node rules are what the source says (regenerated facts)
+
+`Model.Ctl`'s loop, switch, call, `if` and `static` rules are hand-written mirrors of the Go
+nodes.  `extract/c02` regenerates, on every run, the shape of those nodes from the source
+(`Generated.C02`, data only; `Model.CtlShape` says what the data means).  For each rule there is
+(1) a generic theorem over EVERY table — the evaluator the facts describe equals the
+hand-written rule whenever the table passes the decidable test `…OK` (all programs, all fuel,
+all states), (2) the obligation `…OK Generated.C02.…` by `decide`, (3) the instance for the
+generated table, and (4) a negation witness: a table with the shape of a realistic mistake, on
+which the two evaluators differ on a concrete program.  A source change that invalidates a
+rule therefore breaks the obligation that names the rule. -/
+
+open Model.CtlShape Proofs.CtlShape
+
+/-- `while`: condition, body; Break ends the loop, Continue goes back to the condition,
+Return / Throw go up. -/
+theorem C02_tie_while (L : LoopFacts) (h : whileOK L = true) (funs : List MFun) (fuel : Nat) (c : MExpr)
+    (incs : MArgs) (b : MBlock) (v : Val) (s : MSt) :
+    loopBy L funs fuel c incs b v s = whileM funs fuel c b v s := loopBy_while L h funs fuel c incs b v s
+
+/-- `do-while`: body, condition; Continue still evaluates the condition. -/
+theorem C02_tie_do (L : LoopFacts) (h : doOK L = true) (funs : List MFun) (fuel : Nat) (c : MExpr)
+    (incs : MArgs) (b : MBlock) (v : Val) (s : MSt) :
+    loopBy L funs fuel c incs b v s = doM funs fuel b c v s := loopBy_do L h funs fuel c incs b v s
+
+/-- `for`: condition, body, increments; Continue still runs the increments; no path around
+the loop, no assertion on the header other than the BoolTest short cut. -/
+theorem C02_tie_for (L : LoopFacts) (h : forOK L = true) (funs : List MFun) (fuel : Nat) (c : MExpr)
+    (incs : MArgs) (b : MBlock) (v : Val) (s : MSt) :
+    loopBy L funs fuel c incs b v s = Model.Ctl.forM funs fuel c incs b v s := loopBy_for L h funs fuel c incs b v s
+
+/-- `foreach` over an array. -/
+theorem C02_tie_foreach (d : Dispatch) (h : foreachOK d = true) (funs : List MFun) (fuel : Nat) (k : Option Nat)
+    (vi : Nat) (b : MBlock) (xs : List Int) (i : Nat) (v : Val) (s : MSt) :
+    foreachBy d funs fuel k vi b xs i v s = foreachM funs fuel k vi b xs i v s :=
+  foreachBy_eq d h funs fuel k vi b xs i v s
+
+/-- the bodies of a `switch`: fall through until Break or Continue, which end the switch. -/
+theorem C02_tie_switch_body (d : Dispatch) (h : switchBodyOK d = true) (funs : List MFun) (fuel : Nat)
+    (cs : MCases) (dflt : MBlock) (s : MSt) :
+    runBodiesBy d funs fuel cs dflt s = runBodiesM funs fuel cs dflt s := runBodiesBy_eq d h funs fuel cs dflt s
+
+/-- branches of `if` and arms of `match` consume no control. -/
+theorem C02_tie_block (d : Dispatch) (h : blockOK d = true) (funs : List MFun) (fuel : Nat) (b : MBlock) (v : Val)
+    (s : MSt) : blockBy d funs fuel b v s = execMB funs fuel b v s := blockBy_eq d h funs fuel b v s
+
+/-- the call boundary: Return is the value, an escaping Break / Continue becomes a thrown error. -/
+theorem C02_tie_call (d : Dispatch) (h : callOK d = true) (caller : Frame) (r : MRes Val) :
+    callResultBy d caller r = callResultM caller r := callResultBy_eq d h caller r
+
+/-- the `elseif` chain runs the first branch whose test succeeds and evaluates no later test. -/
+theorem C02_tie_elseif (F : ScanFacts) (h : ifScanOK F = true) (funs : List MFun) (fuel : Nat) (es : MElseIfs)
+    (els : MBlock) (s : MSt) : elifsBy F funs fuel es els none s = elifsM funs fuel es els s :=
+  elifsBy_eq F h funs fuel es els s
+
+/-- every clause scan (`elseif`, `match` arms, `switch` labels) evaluates the tests up to and
+including the first that succeeds, whatever the outcomes `ts` of the tests would be. -/
+theorem C02_tie_scan (F : ScanFacts) (h : scanOK F = true) (ts : List Bool) : scanTests F false ts = refTests ts :=
+  scanTests_eq F h ts
+
+/-- the `static` statement: the cell is created once and never dropped or overwritten by the store. -/
+theorem C02_tie_static_store (F : StoreFacts) (h : storeOK F = true) (g : FName) (s : MSt) (i : Nat) (init : Val) :
+    bindStaticBy F g s i init = bindStatic g s i init := bindStaticBy_eq F h g s i init
+
+/-- …and in terms of the cells alone: whatever was there stays, for every key. -/
+theorem C02_tie_static_cells_kept (F : StoreFacts) (h : storeOK F = true) (cells : List (Nat × Val)) (i j : Nat)
+    (v z : Val) (hj : aget cells j = some z) : aget (initBy F cells i v) j = some z := by
+  rw [initBy_eq F h]
+  by_cases hi : (aget cells i).isNone
+  · have hne : j ≠ i := by intro e; subst e; simp [hj] at hi
+    simp only [hi, if_true]
+    clear hi
+    induction cells with
+    | nil => simp [aget] at hj
+    | cons p rest ih =>
+      obtain ⟨k', a'⟩ := p
+      by_cases hk : i = k'
+      · subst hk; simp [aset, aget, hne] at hj ⊢; exact hj
+      · by_cases hjk : j = k'
+        · subst hjk; simp [aset, aget, hk] at hj ⊢; exact hj
+        · simp [aset, aget, hk, hjk] at hj ⊢; exact ih hj
+  · simp [hi, hj]
+
+/-! ### obligations over the regenerated tables (`Generated/C02Shapes.lean`) -/
+
+/-- the translator found every named thing -/
+theorem C02_tie_shape : Generated.C02.shapeNotes = [] := by first | decide | fail "obligation C02_tie_shape no longer holds: the translator extract/c02 did not find a construct it names (see Generated.C02.shapeNotes)"
+
+theorem C02_tie_while_facts :
+    Generated.C02.whileLoops.all whileOK = true ∧ Generated.C02.whileLoops ≠ [] := by first | decide | fail "obligation C02_tie_while_facts no longer holds: node/while.go no longer has the shape of Model.Ctl.whileM (phases cond,body; Break leaves, Continue goes to the condition, Return/Throw propagate) — see Generated.C02.whileLoops / unknownWhy"
+
+theorem C02_tie_do_facts :
+    Generated.C02.doLoops.all doOK = true ∧ Generated.C02.doLoops ≠ [] := by first | decide | fail "obligation C02_tie_do_facts no longer holds: node/do_while.go no longer has the shape of Model.Ctl.doM (phases body,cond; Continue must still reach the condition) — see Generated.C02.doLoops / unknownWhy"
+
+theorem C02_tie_for_facts :
+    Generated.C02.forLoops.all forOK = true ∧ Generated.C02.forLoops ≠ [] := by first | decide | fail "obligation C02_tie_for_facts no longer holds: node/for.go no longer has the shape of Model.Ctl.forM (phases cond,body,incr; Continue must still reach the increments; no early path around the loop; no assertion on the header but BoolTest) — see Generated.C02.forLoops / unknownWhy"
+
+theorem C02_tie_foreach_facts : foreachAllOK Generated.C02.foreachBodies = true := by first | decide | fail "obligation C02_tie_foreach_facts no longer holds: node/foreach.go: a statement loop no longer obeys the loop rule of Model.Ctl.foreachM (Break leaves, Continue goes to the next element) — see Generated.C02.foreachBodies / unknownWhy"
+
+theorem C02_tie_switch_facts :
+    Generated.C02.switchBodies.all (fun B => switchBodyOK B.dispatch) = true ∧ Generated.C02.switchBodies ≠ [] := by
+  first | decide | fail "obligation C02_tie_switch_facts no longer holds: node/switch.go: runSwitchBody no longer has the arms of Model.Ctl.runBodiesM (Break and Continue end the switch, Return/Throw propagate, otherwise fall through) — see Generated.C02.switchBodies"
+
+theorem C02_tie_call_facts :
+    Generated.C02.callBodies.all (fun B => callOK B.dispatch) = true ∧ Generated.C02.callBodies ≠ [] := by first | decide | fail "obligation C02_tie_call_facts no longer holds: node/function.go: FunctionStatement.Call no longer has the arms of Model.Ctl.callResultM (Return is the value, Break/Continue become a thrown error, Throw propagates) — see Generated.C02.callBodies"
+
+theorem C02_tie_block_facts : Generated.C02.blocks.all (fun B => blockOK B.dispatch) = true := by first | decide | fail "obligation C02_tie_block_facts no longer holds: a branch of if / an arm of match consumes a control (Model.Ctl.execMB hands every control up) — see Generated.C02.blocks"
+
+/-- all three scans evaluate a prefix of the tests; the `if` node's scan stops at the branch -/
+theorem C02_tie_scan_facts :
+    Generated.C02.scans.all scanOK = true ∧ Generated.C02.scans.map (·.over) = ["ElseIf", "Arms", "Cases"] ∧
+    (Generated.C02.scans.filter (·.over == "ElseIf")).all ifScanOK = true := by first | decide | fail "obligation C02_tie_scan_facts no longer holds: a clause scan (if/elseif, match arms, switch labels) may evaluate a test behind the first that succeeds, or the if node no longer runs the branch inside the scan — see Generated.C02.scans"
+
+theorem C02_tie_static_store_facts : storeOK Generated.C02.store = true := by first | decide | fail "obligation C02_tie_static_store_facts no longer holds: data/static_locals.go / node/var.go: the store of static cells may drop, overwrite or re-create an existing cell (Model.Ctl.bindStatic creates a cell once and keeps it) — see Generated.C02.store"
+
+/-- the header of `for`: one parse-time rewrite (`$x++` increment → VarStmtIncr, same slot, same
+fallback), parameters stored in their own fields, one BoolTest type whose GetValue is its
+testBool, and `IsBreak` / `IsContinue` are the constants the dispatch code takes them for -/
+theorem C02_tie_for_header_facts :
+    forCtorOK Generated.C02.forCtor = true ∧
+    Generated.C02.boolTests = [{ type := "VarIntLe", getValueViaTestBool := true }] ∧
+    controlsOK Generated.C02.controls = true := by first | decide | fail "obligation C02_tie_for_header_facts no longer holds: the specialised nodes around the for header changed (NewForStatement rewrites, ForStatement fields, BoolTest implementors, IsBreak/IsContinue constants) — see Generated.C02.forCtor / boolTests / controls"
+
+/-! ### the rules of Model.Ctl, instantiated with the regenerated tables -/
+
+theorem C02_tie_loops_generated (funs : List MFun) (fuel : Nat) (c : MExpr) (incs : MArgs) (b : MBlock) (v : Val)
+    (s : MSt) :
+    (∀ L ∈ Generated.C02.whileLoops, loopBy L funs fuel c incs b v s = whileM funs fuel c b v s) ∧
+    (∀ L ∈ Generated.C02.doLoops, loopBy L funs fuel c incs b v s = doM funs fuel b c v s) ∧
+    (∀ L ∈ Generated.C02.forLoops, loopBy L funs fuel c incs b v s = Model.Ctl.forM funs fuel c incs b v s) :=
+  ⟨fun L hL => C02_tie_while L (List.all_eq_true.mp C02_tie_while_facts.1 L hL) funs fuel c incs b v s,
+   fun L hL => C02_tie_do L (List.all_eq_true.mp C02_tie_do_facts.1 L hL) funs fuel c incs b v s,
+   fun L hL => C02_tie_for L (List.all_eq_true.mp C02_tie_for_facts.1 L hL) funs fuel c incs b v s⟩
+
+theorem C02_tie_bodies_generated (funs : List MFun) (fuel : Nat) :
+    (∀ B ∈ Generated.C02.foreachBodies, B.isArrayPath = true → ∀ k vi b xs i v s,
+      foreachBy B.dispatch funs fuel k vi b xs i v s = foreachM funs fuel k vi b xs i v s) ∧
+    (∀ B ∈ Generated.C02.switchBodies, ∀ cs dflt s,
+      runBodiesBy B.dispatch funs fuel cs dflt s = runBodiesM funs fuel cs dflt s) ∧
+    (∀ B ∈ Generated.C02.blocks, ∀ b v s, blockBy B.dispatch funs fuel b v s = execMB funs fuel b v s) ∧
+    (∀ B ∈ Generated.C02.callBodies, ∀ caller r, callResultBy B.dispatch caller r = callResultM caller r) := by
+  refine ⟨?_, ?_, ?_, ?_⟩
+  · intro B hB hA k vi b xs i v s
+    have h := C02_tie_foreach_facts
+    simp only [foreachAllOK, Bool.and_eq_true, List.all_eq_true] at h
+    have hB' := h.2 B hB
+    rw [hA] at hB'
+    exact C02_tie_foreach _ hB' funs fuel k vi b xs i v s
+  · intro B hB cs dflt s
+    exact C02_tie_switch_body _ (List.all_eq_true.mp C02_tie_switch_facts.1 B hB) funs fuel cs dflt s
+  · intro B hB b v s
+    exact C02_tie_block _ (List.all_eq_true.mp C02_tie_block_facts B hB) funs fuel b v s
+  · intro B hB caller r
+    exact C02_tie_call _ (List.all_eq_true.mp C02_tie_call_facts.1 B hB) caller r
+
+theorem C02_tie_static_store_generated (g : FName) (s : MSt) (i : Nat) (init : Val) :
+    bindStaticBy Generated.C02.store g s i init = bindStatic g s i init :=
+  C02_tie_static_store _ C02_tie_static_store_facts g s i init
+
+/-! ### negation witnesses: tables with the shape of a realistic mistake -/
+
+/-- what a witness looks at: slots and output -/
+def tieObs : MRes Val → Option (List Val × List String)
+  | .ok _ s => some (s.fr.slots, s.out.reverse)
+  | .ctl _ s => some (s.fr.slots, s.out.reverse)
+  | .timeout => none
+
+def tieSt (slots : List Val) : MSt := { fr := { slots := slots, bound := [], fn := none }, statics := [], out := [] }
+
+def tieOkDispatch : Dispatch :=
+  { noneProceeds := true, onBreak := [.leave], onContinue := [.next], onReturn := [.propagate], onThrow := [.propagate] }
+
+/-- `if ($x == n) { continue; }` on slot `i` -/
+def tieContinueWhen (i : Nat) (n : Int) : MStmt :=
+  .ite (.bin .eq (.var i) (.lit (.int n))) (.cons .cont .nil) .nil .nil
+
+/-- the seeded change `C02-dowhile-continue-skips-condition`: the Continue arm of do-while
+restarts the Go loop (`continue loop`). `do { $i++; if ($i == 1) { continue; } } while (false);`
+runs the body twice. -/
+def tieDoRestart : LoopFacts :=
+  { fn := "DoWhileStatement.GetValue", phases := [.body, .cond], condFalseExits := true,
+    dispatch := { tieOkDispatch with onContinue := [.restart] }, preExits := [], asserts := [] }
+
+theorem C02_tie_do_counterexample :
+    doOK tieDoRestart = false ∧
+    tieObs (loopBy tieDoRestart [] 9 (.lit (.bool false)) .nil
+      (.cons (.expr (.postIncr 0)) (.cons (tieContinueWhen 0 1) .nil)) .null (tieSt [.int 0])) = some ([.int 2], []) ∧
+    tieObs (doM [] 9 (.cons (.expr (.postIncr 0)) (.cons (tieContinueWhen 0 1) .nil)) (.lit (.bool false)) .null
+      (tieSt [.int 0])) = some ([.int 1], []) := by decide
+
+/-- Continue in `for` that skips the increments:
+`for (; $i < 2; $i++) { $j++; if ($j == 2) { continue; } }` makes three passes instead of two. -/
+def tieForRestart : LoopFacts :=
+  { fn := "ForStatement.GetValue", phases := [.cond, .body, .incr], condFalseExits := true,
+    dispatch := { tieOkDispatch with onContinue := [.restart] }, preExits := [], asserts := [] }
+
+theorem C02_tie_for_counterexample :
+    forOK tieForRestart = false ∧
+    tieObs (loopBy tieForRestart [] 9 (.bin .lt (.var 0) (.lit (.int 2))) (.cons (.stmtIncr 0) .nil)
+      (.cons (.expr (.postIncr 1)) (.cons (tieContinueWhen 1 2) .nil)) .null (tieSt [.int 0, .int 0])) =
+        some ([.int 2, .int 3], []) ∧
+    tieObs (Model.Ctl.forM [] 9 (.bin .lt (.var 0) (.lit (.int 2))) (.cons (.stmtIncr 0) .nil)
+      (.cons (.expr (.postIncr 1)) (.cons (tieContinueWhen 1 2) .nil)) .null (tieSt [.int 0, .int 0])) =
+        some ([.int 2, .int 2], []) := by decide
+
+/-- the defect `C02-while-continue` (fixed 9e604f1): Go's `continue` bound to the statement
+loop, so the control was dropped and the rest of the body still ran:
+`while ($i < 3) { $i++; if ($i == 2) { continue; } echo $i; }` printed 123. -/
+def tieWhileSwallow : LoopFacts :=
+  { fn := "WhileStatement.GetValue", phases := [.cond, .body], condFalseExits := true,
+    dispatch := { tieOkDispatch with onContinue := [.swallow] }, preExits := [], asserts := [] }
+
+theorem C02_tie_while_counterexample :
+    whileOK tieWhileSwallow = false ∧
+    tieObs (loopBy tieWhileSwallow [] 12 (.bin .lt (.var 0) (.lit (.int 3))) .nil
+      (.cons (.expr (.postIncr 0)) (.cons (tieContinueWhen 0 2) (.cons (.echo (.cons (.var 0) .nil)) .nil))) .null
+      (tieSt [.int 0])) = some ([.int 3], ["1", "2", "3"]) ∧
+    tieObs (whileM [] 12 (.bin .lt (.var 0) (.lit (.int 3)))
+      (.cons (.expr (.postIncr 0)) (.cons (tieContinueWhen 0 2) (.cons (.echo (.cons (.var 0) .nil)) .nil))) .null
+      (tieSt [.int 0])) = some ([.int 3], ["1", "3"]) := by decide
+
+/-- the seeded change `C02-counted-for-native-loop`: a path around the loop for one header
+shape, with its own statement loop inside a Go counted loop, is refused by name -/
+theorem C02_tie_for_early_path_refused :
+    forOK { fn := "ForStatement.GetValue", phases := [.cond, .body, .incr], condFalseExits := true,
+            dispatch := tieOkDispatch, preExits := ["if le, ok := u.Condition.(*VarIntLe); ok && len(u.Increments) == 1"],
+            asserts := [("Condition", "*VarIntLe"), ("Increments", "*VarStmtIncr"), ("Condition", "BoolTest")] } = false ∧
+    forOK { fn := "ForStatement.runCounted", phases := [.other], condFalseExits := false,
+            dispatch := tieOkDispatch, preExits := [], asserts := [] } = false := by decide
+
+/-- the defect `C02-stray-break` (fixed 765fc7d): the call boundary handed Break on, so a
+`break` in a loop-less function body ended the caller's loop -/
+theorem C02_tie_call_counterexample :
+    callOK { tieOkDispatch with onBreak := [.propagate], onContinue := [.propagate], onReturn := [.leave] } = false ∧
+    (∃ s, callResultBy { tieOkDispatch with onBreak := [.propagate], onContinue := [.propagate], onReturn := [.leave] }
+        (tieSt []).fr (.ctl (.brk 1) (tieSt [])) = .ctl (.brk 1) s) ∧
+    (∃ s, callResultM (tieSt []).fr (.ctl (.brk 1) (tieSt [])) = .ctl .thr s) :=
+  ⟨by decide, ⟨_, rfl⟩, ⟨_, rfl⟩⟩
+
+/-- the seeded change `C02-elseif-conditions-all-evaluated`: the branch is only selected in the
+scan and run behind it. `if (false) {} elseif (true) { echo "t"; } elseif ($x++ == 9) {}` still
+increments `$x`. -/
+def tieScanGoOn : ScanFacts :=
+  { fn := "IfStatement.GetValue", over := "ElseIf", forward := true, testGuard := .always, afterMatch := .goOn }
+
+theorem C02_tie_elseif_counterexample :
+    ifScanOK tieScanGoOn = false ∧ scanOK tieScanGoOn = false ∧
+    scanTests tieScanGoOn false [true, false] = [true, true] ∧ refTests [true, false] = [true, false] ∧
+    tieObs (elifsBy tieScanGoOn [] 9
+      (.cons (.lit (.bool true)) (.cons (.echo (.cons (.lit (.str "t")) .nil)) .nil)
+        (.cons (.bin .eq (.postIncr 0) (.lit (.int 9))) .nil .nil)) .nil none (tieSt [.int 0])) = some ([.int 1], ["t"]) ∧
+    tieObs (elifsM [] 9
+      (.cons (.lit (.bool true)) (.cons (.echo (.cons (.lit (.str "t")) .nil)) .nil)
+        (.cons (.bin .eq (.postIncr 0) (.lit (.int 9))) .nil .nil)) .nil (tieSt [.int 0])) = some ([.int 0], ["t"]) := by
+  decide
+
+/-- the seeded change `C02-static-locals-slice-grow-copy`: the grow step copies in the wrong
+direction, so the new container never receives the existing cells: creating cell 1 loses cell 0 -/
+def tieStoreDrop : StoreFacts :=
+  { container := "[]*ZVal", presentGuard := true, initOps := [.clobber, .growDrop, .insertFresh], otherWrites := [],
+    stmtSameKey := true, stmtBindsAlways := true, stmtInitGuarded := false }
+
+/-- the store as it is in the pinned tree (a map) -/
+def tieStoreMap : StoreFacts :=
+  { container := "map[int]*ZVal", presentGuard := true, initOps := [.insertFresh], otherWrites := [],
+    stmtSameKey := true, stmtBindsAlways := true, stmtInitGuarded := false }
+
+theorem C02_tie_static_store_counterexample :
+    storeOK tieStoreDrop = false ∧
+    aget (initBy tieStoreDrop [(0, Val.int 7)] 1 (.int 0)) 0 = none ∧
+    aget (initBy tieStoreMap [(0, Val.int 7)] 1 (.int 0)) 0 = some (.int 7) ∧
+    -- and without the "already there" test a second execution of the statement resets the cell
+    storeOK { tieStoreMap with presentGuard := false } = false ∧ storeOK { tieStoreMap with presentGuard := false, stmtInitGuarded := true } = true ∧
+    initBy { tieStoreMap with presentGuard := false } [(0, Val.int 7)] 0 (.int 0) = [(0, Val.int 0)] := by
+  decide
+
+-- non-vacuity: the loop the regenerated `for` facts describe really runs:
+-- `for (; $i <= 2; $i++) { echo $i; }`
+example : ∀ L ∈ Generated.C02.forLoops, forOK L = true →
+    tieObs (loopBy L [] 9 (.varIntLe 0 2 (.bin .le (.var 0) (.lit (.int 2)))) (.cons (.stmtIncr 0) .nil)
+      (.cons (.echo (.cons (.var 0) .nil)) .nil) .null (tieSt [.int 0])) = some ([.int 3], ["0", "1", "2"]) := by decide
 
 end C02
